@@ -78,7 +78,10 @@ def rotations(seed, n):
     Rs = [("identity", np.eye(3)),
           ("cyclic-xyz", np.array([[0.0, 1, 0], [0, 0, 1], [1, 0, 0]])),
           ("flip-x", np.diag([1.0, -1, -1])),
-          ("flip-z", np.diag([-1.0, -1, 1]))]
+          ("flip-z", np.diag([-1.0, -1, 1])),
+          # proper rotation (180 degrees about (1,-1,0)) that makes EVERY component of a standard-orientation box with
+          # angles <= 90 non-positive -- a legal description that sign-sensitive code mistakes for "no box"
+          ("half-turn-about-(1,-1,0)", np.array([[0.0, -1, 0], [-1, 0, 0], [0, 0, -1]]))]
     for i in range(n):
         Rs.append((f"random", S.random_rotation(rng)))
     return Rs
@@ -673,6 +676,22 @@ def check_presence(tier, seed, only=None):
                     chk.fail("vectors-shape", wc, f"{op}({arg}): unitcell_vectors of the result is {None if V is None else np.shape(V)}", inp)
                     continue
                 chk.ok(nontrivial=(op, str(arg), state), sample=inp)
+    # join with a LIST of others: the cell-presence guard must hold for every element
+    for self_state, others in (("none", ("none", "complete")), ("none", ("complete", "none")), ("complete", ("complete", "none")), ("complete", ("none", "complete"))):
+        t0 = _ptraj(self_state)[0]
+        lst = [_ptraj(o)[0] for o in others]
+        inp = {"check": "presence", "op": "join-list-mixed", "arg": [self_state, list(others)], "state": self_state}
+        try:
+            r = t0.join(lst)
+        except ValueError:
+            chk.ok(nontrivial=("join-list-mixed", self_state, others), sample=inp)
+            continue
+        except Exception as e:  # any other loud failure is not a silent change of the cell
+            chk.ok(nontrivial=("join-list-mixed-raises", type(e).__name__), sample=inp)
+            continue
+        chk.fail("cell-presence", "join(list):mixed-cell-and-no-cell-accepted",
+                 f"join of a {self_state}-cell trajectory with a list {others} was accepted; result has cell={r.unitcell_lengths is not None}",
+                 inp, observed=str(r), expected="ValueError")
     return chk
 
 
